@@ -174,12 +174,15 @@ def minimise_threads(sc, inv, jobs, fails, t0, budget_s):
             for i in range(len(sw)):
                 cands.append(dict(cur, sched=dict(cur["sched"], switches=sw[:i] + sw[i + 1:])))
         for t, th in enumerate(cur["threads"]):
-            for i in range(len(th["calls"])):
-                th2 = dict(th, calls=th["calls"][:i] + th["calls"][i + 1:])
-                cands.append(dict(cur, threads=cur["threads"][:t] + [th2] + cur["threads"][t + 1:]))
-            if th.get("probe") and t >= 1:
-                th2 = dict(th, probe=None)
-                cands.append(dict(cur, threads=cur["threads"][:t] + [th2] + cur["threads"][t + 1:]))
+            rounds = th.get("rounds") or [{"probe": th.get("probe"), "calls": th.get("calls", [])}]
+            for ri, rnd in enumerate(rounds):
+                for i in range(len(rnd["calls"])):
+                    r2 = dict(rnd, calls=rnd["calls"][:i] + rnd["calls"][i + 1:])
+                    th2 = {"rounds": rounds[:ri] + [r2] + rounds[ri + 1:]}
+                    cands.append(dict(cur, threads=cur["threads"][:t] + [th2] + cur["threads"][t + 1:]))
+                if len(rounds) > 1:
+                    th2 = {"rounds": rounds[:ri] + rounds[ri + 1:]}
+                    cands.append(dict(cur, threads=cur["threads"][:t] + [th2] + cur["threads"][t + 1:]))
         if not cands:
             break
         oks = fails(cands)
